@@ -7,7 +7,7 @@
 // outputs are written into blocks surrounded by canary guard regions that are checked after every call
 // (a write outside the capacity is a violation and the run goes on; far writes are ASan reports).
 //
-// modes: base64 hex scalable scalable-x serializer url digest md5split
+// modes: base64 hex scalable scalable-x serializer url digest md5split md5-huge
 #include "common/vh.hpp"
 #include "c19_support.hpp"
 
@@ -1142,6 +1142,62 @@ void digest_case(uint64_t idx, vh::Rng &r) {
 }
 
 // every split of an n-byte message into three updates (0 <= i <= j <= n), one case per n
+// Messages around 2^29 bytes (2^32 bits: the low word of MD5's bit counter wraps into the high word), zero-filled.
+// One case = one (length, feeding shape). The buffer is calloc'd (untouched zero pages) and exactly sized.
+// Reference digests were produced once with python 3.11 hashlib, feeding bytes(1 << 20) repeatedly:
+//   h = hashlib.md5(); z = bytes(1 << 20); [h.update(z[:k]) for the n bytes]; h.hexdigest()
+// and agree with RFC 1321's reference code (which casts the bit count: `(UINT4)inputLen << 3`).
+struct Md5Huge { size_t n; const char *md5; };
+const Md5Huge kMd5Huge[] = {
+    {((size_t)1 << 29) - 64,   "250787e94adcb52421d6b4bc4725aa2f"},   // 536870848: one block short of the wrap
+    {((size_t)1 << 29) - 1,    "c6c4834a7b0928878ad48c867a1e24d6"},   // 536870911: bit count 2^32-8, the largest that fits the low word
+    {((size_t)1 << 29),        "aa559b4e3523a6c931f08f4df52d58f2"},   // 536870912: bit count exactly 2^32
+    {((size_t)1 << 29) + 1000, "b0b9022bf39b2600fd66892a61a628c7"},   // 536871912
+};
+enum { kMd5HugeShapes = 4, kMd5HugeCases = 4 * kMd5HugeShapes };
+
+void md5huge_case(uint64_t idx, vh::Rng &) {
+    if (idx >= kMd5HugeCases) return;
+    // order: the two lengths at/above the wrap first, so a reduced (quick) set of 8 cases covers every shape on them
+    static const int order[4] = {2, 3, 1, 0};
+    const Md5Huge &m = kMd5Huge[order[idx / kMd5HugeShapes]];
+    const unsigned shape = (unsigned)(idx % kMd5HugeShapes);
+    static const char *shape_name[] = {"one update()", "1 MiB pieces", "300 MiB + rest", "37 bytes, then pieces of 96 MiB + 5"};
+    vh::st().case_desc = vh::fmt("md5-huge: %zu zero bytes fed as %s", m.n, shape_name[shape]);
+    uint8_t *buf = (uint8_t *)calloc(m.n, 1);
+    if (!buf) fatal("calloc-512MiB");
+    tbox::crypto::MD5 md5;
+    size_t pos = 0, calls = 0, biggest = 0;
+    auto feed = [&](size_t k) { if (k > m.n - pos) k = m.n - pos; md5.update(buf + pos, k); pos += k; ++calls; if (k > biggest) biggest = k; };
+    step("MD5 of %zu zero bytes as %s", m.n, shape_name[shape]);
+    switch (shape) {
+        case 0: feed(m.n); break;
+        case 1: while (pos < m.n) feed((size_t)1 << 20); break;
+        case 2: feed((size_t)300 << 20); feed(m.n); break;
+        default: feed(37); while (pos < m.n) feed(((size_t)96 << 20) + 5); break;
+    }
+    Out out(16);
+    md5.finish(out.p());
+    out.check("md5-finish");
+    free(buf);
+    std::string got = vh::hex(out.p(), 16);
+    if (got != m.md5)
+        vh::viol(shape == 0 ? "md5/huge/single-update-digest-mismatch" : "md5/huge/multi-update-digest-mismatch",
+                 vh::fmt("MD5 of %zu zero bytes (%s, %zu update() calls, largest %zu bytes) = %s, RFC 1321 / hashlib give %s",
+                         m.n, shape_name[shape], calls, biggest, got.c_str(), m.md5));
+    vh::counter("md5_huge_cases");
+    if (m.n >= ((size_t)1 << 29)) {
+        vh::counter(shape == 0 ? "md5_single_update_ge_512MiB" : "md5_multi_update_total_ge_512MiB");
+        if (shape == 3) vh::counter("md5_huge_misaligned_first_piece");
+    } else vh::counter("md5_huge_just_below_512MiB");
+    vh::counter_max("max_md5_message_bytes", m.n);
+    vh::Sig sig; sig.add(m.n); sig.add(shape);
+    vh::note_case(sig.h, true);
+    if (idx == 1 && vh::st().args.first <= 1)
+        vh::sample(vh::fmt("{\"mode\":\"md5-huge\",\"zero_bytes\":%zu,\"fed_as\":\"%s\",\"update_calls\":%zu,\"md5\":\"%s\",\"reference\":\"%s\"}",
+                           m.n, shape_name[shape], calls, got.c_str(), m.md5), 5);
+}
+
 void md5split_case(uint64_t idx, vh::Rng &r) {
     const size_t n = (size_t)idx;
     unsigned mul = 1 + 2 * (unsigned)(vh::st().args.seed % 97), add = (unsigned)(vh::st().args.seed / 97 % 251);
@@ -1186,6 +1242,7 @@ int main(int argc, char **argv) {
         else if (mode == "url") url_case(idx, r);
         else if (mode == "digest") digest_case(idx, r);
         else if (mode == "md5split") md5split_case(idx, r);
+        else if (mode == "md5-huge") md5huge_case(idx, r);
         else c19::fatal("unknown-mode");
     });
     c19::ref_stop();
